@@ -307,6 +307,15 @@ func TestC03Joins(t *testing.T) {
 		for i, n := 0, rapid.IntRange(0, 3).Draw(rt, "suffix"); i < n; i++ {
 			kinds = append(kinds, rapid.SampledFrom(gen.OpKinds).Draw(rt, "kind"))
 		}
+		switch rapid.IntRange(0, 11).Draw(rt, "scenario") {
+		case 0:
+			// a row limit between two joins
+			kinds = append([]string{"join"}, rapid.SampledFrom([][]string{{"top"}, {"take"}, {"sort", "take"}, {"top", "where"}}).Draw(rt, "between")...)
+			kinds = append(kinds, "join")
+		case 1:
+			// the result is named like a stored table and joined again
+			kinds = []string{"join", "as", "join", rapid.SampledFrom(nonJoinKinds).Draw(rt, "after")}
+		}
 		q := &gen.Tabular{Table: gen.ColIdent("A")}
 		s := gen.StdSchemas["A"]
 		for _, k := range kinds {
